@@ -553,6 +553,12 @@ func (d dataSpec) num(i int) interface{} {
 	case 6:
 		return int32(v)
 	default:
+		switch (v + 1000) % 5 {
+		case 0:
+			return float64(v) * 1e21 // huge
+		case 1:
+			return float64(v) * 1e-9 // tiny
+		}
 		return float64(v % 7) // small integral floats: the same value in many data maps
 	}
 }
